@@ -749,7 +749,7 @@ def run(ck):
         if parsed[k] is not None:
             midx.append(k)
             mlines.append(model_line(c, parsed[k]))
-    rc, mout, merr = vv.run_lines(model, "\n".join(mlines) + "\n")
+    rc, mout, merr = vv.run_lines_parallel(model, mlines)
     if rc != 0 or len(mout) != len(mlines):
         raise vv.BuildError("model driver failed: rc=%s %s" % (rc, merr[:500]))
     mres = dict(zip(midx, mout))
